@@ -52,6 +52,28 @@ fn grid_operands(op: &str, n: usize, j: usize) -> Vec<Value> {
     v
 }
 
+/// operand counts far outside the grid: a count must be compared as a number, not modulo anything
+fn fixed_large_counts() -> Vec<Value> {
+    let mut out = vec![];
+    for (op, _, _, _) in model::eval::OPS {
+        for n in [7usize, 16, 17, 255, 256, 257, 258, 259, 512, 513, 514, 65536, 65537, 65538, 65539] {
+            let base = grid_operands(op, 3, n % 8);
+            let mut args: Vec<Value> = base.clone();
+            let mut k = 0;
+            while args.len() < n {
+                args.push(match *op {
+                    "cat" | "merge" | "if" | "?:" | "and" | "or" | "missing" => json!("p"),
+                    _ => json!(((k % 5) + 1) as i64),
+                });
+                k += 1;
+            }
+            args.truncate(n);
+            out.push(json!({"op": op, "n": n, "args": args}));
+        }
+    }
+    out
+}
+
 const GRID_DATA: &str = r#"{"a": 1, "b": [10, 20, 30], "zz": null}"#;
 
 fn fixed_grid() -> Vec<Value> {
@@ -83,6 +105,26 @@ fn check_arity(case: &Value, obs: &mut Obs) -> Result<(), String> {
         let nested = json!({"cat": ["a", rule.clone()]});
         if let Some(v) = run(&nested, &data, obs)? {
             return Err(format!("an operation with a wrong operand count inside an eager operator did not fail: {} gave {}", nested, v));
+        }
+        // ... and wherever else an expression is evaluated: as the element expression / predicate of a higher-order
+        // operator over a non-empty collection, as a selected branch, as an and / or operand, as an initial value
+        for (what, outer) in [
+            ("map expression", json!({"map": [[1, 2], rule.clone()]})),
+            ("filter predicate", json!({"filter": [[1], rule.clone()]})),
+            ("reduce expression", json!({"reduce": [[1], rule.clone(), 0]})),
+            ("reduce initial value", json!({"reduce": [[], {"var": "current"}, rule.clone()]})),
+            ("all predicate", json!({"all": [[1], rule.clone()]})),
+            ("some predicate", json!({"some": [[1], rule.clone()]})),
+            ("selected if branch", json!({"if": [true, rule.clone(), 0]})),
+            ("if condition", json!({"if": [rule.clone(), 1, 0]})),
+            ("and operand", json!({"and": [1, rule.clone()]})),
+            ("or operand", json!({"or": [0, rule.clone()]})),
+            ("literal-array element of some", json!({"some": [[rule.clone()], true]})),
+            ("var default", json!({"var": ["no-such-key", rule.clone()]})),
+        ] {
+            if let Some(v) = run(&outer, &data, obs)? {
+                return Err(format!("an operation with a wrong operand count evaluated as {} did not fail: {} gave {}", what, outer, v));
+            }
         }
         // decisive when the same operator succeeds on these operands under a documented count
         let docs = documented_counts(op);
@@ -196,11 +238,23 @@ pub fn property() -> Property {
         subs: vec![
             Sub {
                 name: "arity_grid",
-                about: "the complete grid 35 operators x operand counts 0..6 x 8 operand variants; for documented counts the operands come from a per-operator benign pool (the model says Ok, checked), for other counts from the same pool truncated / extended, so only the count can explain a rejection; accepted iff documented (table transcribed from the statement); results equal the model; a wrong-arity operation nested in an eager operator fails the whole rule.",
+                about: "the complete grid 35 operators x operand counts 0..6 x 8 operand variants; for documented counts the operands come from a per-operator benign pool (the model says Ok, checked), for other counts from the same pool truncated / extended, so only the count can explain a rejection; accepted iff documented (table transcribed from the statement); results equal the model; a wrong-arity operation fails the whole rule wherever it is evaluated (operand of an eager operator, element expression / predicate / initial value of a higher-order operator, selected branch, and / or operand, var default).",
                 nontrivial: "documented count and the model returns a value, or undocumented count whose operands succeed under a documented count (arity-decisive).",
                 strategy: None,
                 fixed: Some(fixed_grid),
                 fixed_exhaustive: true,
+                check: check_arity,
+                quick: 0,
+                thorough: 0,
+                small_stack: false,
+            },
+            Sub {
+                name: "arity_large_counts",
+                about: "35 operators x operand counts 7, 16, 17, 255-259, 512-514, 65536-65539 (benign operands): accepted iff the count is documented (only the variadic operators), results equal the model.",
+                nontrivial: "as arity_grid.",
+                strategy: None,
+                fixed: Some(fixed_large_counts),
+                fixed_exhaustive: false,
                 check: check_arity,
                 quick: 0,
                 thorough: 0,
